@@ -272,6 +272,10 @@ def monitor(ctx, extended=False):
             try:
                 with warnings.catch_warnings():
                     warnings.simplefilter('ignore')
+                    if i % 4 == 2:
+                        # the Save button pressed twice: the file that is loaded back is the one written by the SECOND save of the same objects in this process
+                        os.remove(S.store_to_excel(pl, fname=f'rt{i}first', path=tmp))
+                        desc = dict(desc, history=list(desc.get('history', [])) + ['the same pipeline object was saved once before (to another file name)'])
                     path = S.store_to_excel(pl, fname=f'rt{i}', path=tmp)
                     q = L.load_pipeline_from_workbook(openpyxl.load_workbook(filename=path, data_only=True))
                 os.remove(path)
